@@ -185,6 +185,9 @@ func c11(p *core.Prog, r *core.Report) {
 	c11Exchanges(p, r)
 	c11Removal(p, r)
 	c11Dropped(p, r)
+	if f := mustFunc(p, r, "", "Peer", "addConnection"); f != nil {
+		peerListOnlyActive(p, r, f, "C11-R3")
+	}
 	c11Goroutines(p, r)
 	selfJoin(p, r, "C11-R4", "")
 	c11Relay(p, r)
@@ -252,6 +255,71 @@ func c11Exchanges(p *core.Prog, r *core.Report) {
 	}
 	if n < 3 {
 		r.Errorf("expected at least 3 newExchange call sites, found %d", n)
+	}
+	// the goroutine that owns a freshly registered inbound exchange: it either
+	// hands the call to a handler or leaves through the arm on which reading
+	// the method failed, and readMethod reports a failure only through
+	// reqResReader.failed (which shuts the exchange down). The expiry watcher
+	// is started only after the method was read, so nothing else would ever
+	// remove the exchange.
+	if f := mustFunc(p, r, "", "InboundCall", "readMethod"); f != nil {
+		var fromFailed func(v ssa.Value, d int) bool
+		fromFailed = func(v ssa.Value, d int) bool {
+			if d > 6 {
+				return false
+			}
+			if callResult(v, "reqResReader.failed") != nil {
+				return true
+			}
+			if ph, ok := v.(*ssa.Phi); ok {
+				for _, e := range ph.Edges {
+					if k, isK := e.(*ssa.Const); isK && k.IsNil() {
+						continue
+					}
+					if !fromFailed(e, d+1) {
+						return false
+					}
+				}
+				return true
+			}
+			return false
+		}
+		ok, n := true, 0
+		core.EachInstr(f, func(i ssa.Instruction) {
+			ret, isRet := i.(*ssa.Return)
+			if !isRet || len(ret.Results) != 1 {
+				return
+			}
+			if k, isK := ret.Results[0].(*ssa.Const); isK && k.IsNil() {
+				return
+			}
+			n++
+			if !fromFailed(ret.Results[0], 0) {
+				ok = false
+			}
+		})
+		r.Check(ok && n > 0, "C11-R1", fname(f), "a failed method read is reported through failed() (exchange shut down)", p.Pos(f.Pos()),
+			"every non-nil error returned is the result of reqResReader.failed", "readMethod can return an error without shutting the exchange down: the inbound exchange stays registered for ever (no watcher is running yet)")
+	}
+	if f := mustFunc(p, r, "", "Connection", "dispatchInbound"); f != nil {
+		rm := core.CallsIn(f, "InboundCall.readMethod")
+		ok, how := len(rm) == 1, "readMethod call not found"
+		if ok {
+			errV := rm[0].Value()
+			res := core.ReachAvoiding(f, nil, core.IsReturn, func(i ssa.Instruction) bool {
+				if c, isC := i.(ssa.CallInstruction); isC && c.Common().IsInvoke() && c.Common().Method.Name() == "Handle" {
+					return true
+				}
+				return false
+			}, func(from, to *ssa.BasicBlock) bool {
+				// do not follow the arm on which readMethod failed
+				return factsAt(to).nilCmp(func(v ssa.Value) bool { return v == errV }, false) && !factsAt(from).nilCmp(func(v ssa.Value) bool { return v == errV }, false)
+			})
+			if res.Found {
+				ok, how = false, "dispatchInbound can return without handing the call to a handler and without a failed method read: "+p.TrailString(res)
+			}
+		}
+		r.Check(ok, "C11-R1", fname(f), "the dispatch goroutine hands the call over or leaves on the failed-read arm", p.Pos(f.Pos()), "every return is behind Handler.Handle or the readMethod error arm", how)
 	}
 	// call objects: failure and completion reach shutdown
 	for _, m := range [][2]string{{"reqResWriter", "failed"}, {"reqResReader", "failed"}, {"InboundCallResponse", "doneSending"}, {"OutboundCallResponse", "doneReading"}} {
